@@ -820,6 +820,54 @@ def wide(seed, bases=("general", "cascade", "lifecycle", "graphs", "priorities",
     return ops + out
 
 
+def firstuse(seed):
+    """C11/C13/C16: the FIRST use of an event or component type from a world-level call (World::send / send_to / insert /
+    remove of a type nobody registered yet) while handlers watch the registration notifications (AddGlobalEvent,
+    AddTargetedEvent, AddComponent, AddHandler ...) and panic, take or react.  The value handed to the call by value exists
+    before the registration it triggers: a panic raised in a notification handler must still destroy it exactly once, the type
+    must be registered once, and the second use must not announce it again.  (Round-7 change C13_W_1 moved the event into the
+    arena before `add_global_event`; no generated history had a watcher of a registration event that panics.)"""
+    r = random.Random(seed)
+    ctx = Ctx(r, (0, 1, 3))
+    ops = []
+    ne = r.randint(1, 3)
+    for _ in range(ne):
+        ops.append("spawn")
+        ctx.nspawn += 1
+    watch = ["AddG", "AddT", "AddC", "AddH", "AddG", "AddT"]
+    for i in range(r.randint(1, 4)):
+        recv = r.choice(watch)
+        x = r.random()
+        # the sender set registers what it names, so it names only what the body needs (first uses stay first uses)
+        if x < 0.45:
+            body, snd = "panic", ""
+        elif x < 0.6:
+            body, snd = "", ""
+        elif x < 0.8:
+            k = r.choice([0, 1, 3])
+            body, snd = r.choice([("spawn", "Spawn"), (f"ins:#0:K{k}:{r.randrange(90)}", f"InsK{k}"),
+                                  (f"despawn:#{r.randrange(ne)}", "Despawn")])
+        else:
+            body, snd = r.choice([("send:G0,panic", "G0"), ("spawn,panic", "Spawn"), ("send:G0", "G0")])
+        ops.append(f"addh name=w{i} prio={r.choice('hml')} params=R:{recv}:i{';Snd:' + snd if snd else ''} body={body}")
+    if r.random() < 0.5:
+        # an ordinary receiver of a user event (its registration is announced too; it may be the one that panics later)
+        ev = r.choice(USER_G)
+        ops.append(f"addh name=u0 prio=m params=R:{ev}:{r.choice('im')} body={r.choice(['', 'take', 'panic'])}")
+    uses = []
+    for ev in USER_G:
+        uses += [f"send {ev}"] * 2
+    for ev in USER_T:
+        uses += [f"sendto {ev} #{r.randrange(ne)}"] * 2
+    for k in (0, 1, 3):
+        uses += [f"insert #{r.randrange(ne)} K{k} {r.randrange(90)}", f"insert #{r.randrange(ne)} K{k} {r.randrange(90)}",
+                 f"remove #{r.randrange(ne)} K{k}"]
+    r.shuffle(uses)
+    ops += uses[:r.randint(6, 14)]
+    ops.append("drop")
+    return ops
+
+
 PROFILES = {
     "general": general,
     "storage": storage,
@@ -832,6 +880,7 @@ PROFILES = {
     "priorities": priorities,
     "spawns": spawns,
     "arena": arena,
+    "firstuse": firstuse,
 }
 PROFILES["wide"] = wide
 
